@@ -13252,3 +13252,42 @@ impl DefaultRtpReceiverNackHandler {
         self.pending_nacks.lock().len()
     }
 }
+
+/// Verification hook (H5, part 2): the negotiated parameters held by each transceiver's sender and
+/// receiver (sender codec parameters, receiver SSRC / RTX SSRC / RTX apt map / simulcast rids) and the
+/// ICE role. Read-only. Compiled only with `--cfg rustrtc_verif`.
+#[cfg(rustrtc_verif)]
+impl PeerConnection {
+    pub fn verif_negotiated(&self) -> Vec<crate::verif_hooks::peer::NegotiatedSnapshot> {
+        self.inner
+            .transceivers
+            .lock()
+            .iter()
+            .map(|t| {
+                let rx = t.receiver.lock().clone();
+                let mut apt: Vec<(u8, u8)> = rx
+                    .as_ref()
+                    .map(|r| r.rtx_apt.lock().iter().map(|(k, v)| (*k, *v)).collect())
+                    .unwrap_or_default();
+                apt.sort();
+                let mut rids: Vec<String> = rx
+                    .as_ref()
+                    .map(|r| r.simulcast_tracks.lock().keys().cloned().collect())
+                    .unwrap_or_default();
+                rids.sort();
+                crate::verif_hooks::peer::NegotiatedSnapshot {
+                    id: t.id(),
+                    sender_params: t.sender.lock().as_ref().map(|s| s.params()),
+                    receiver_ssrc: rx.as_ref().map(|r| r.ssrc()),
+                    receiver_rtx_ssrc: rx.as_ref().and_then(|r| r.rtx_ssrc()),
+                    receiver_rtx_apt: apt,
+                    receiver_simulcast_rids: rids,
+                }
+            })
+            .collect()
+    }
+
+    pub fn verif_ice_role_controlling(&self) -> bool {
+        self.inner.ice_transport.role() == crate::transports::ice::IceRole::Controlling
+    }
+}
